@@ -8,6 +8,7 @@ package main
 // of the source, no read is started on the source once the context is done, count = bytes delivered.
 
 import (
+	"bufio"
 	"bytes"
 	"context"
 	"errors"
@@ -201,7 +202,7 @@ func parseIOCase(l string) (ioCase, bool) {
 }
 
 // runIOCase executes the real helper; returns the observation line and monitor failures
-func runIOCase(c ioCase) (obs string, mon []string) {
+func runIOCase(c ioCase, flavour string) (obs string, mon []string) {
 	data := make([]byte, c.length)
 	for i := range data {
 		data[i] = byte(i % 251)
@@ -213,6 +214,13 @@ func runIOCase(c ioCase) (obs string, mon []string) {
 		cancel()
 	}
 	src := &ioScriptReader{data: data, script: append([]int{}, c.script...), failAt: c.failAt, c: cnt}
+	// the reader handed to the helper: the scripted stream itself, or the same stream behind a reader that ALSO knows
+	// how to write itself out (io.WriterTo: *bufio.Reader here, like *os.File) — transparent for a copy through
+	// buffers of at least its own size, so the observation must be the same
+	var srcR io.Reader = src
+	if flavour == "writerTo" {
+		srcR = bufio.NewReaderSize(src, 16)
+	}
 	var count int64
 	var err error
 	var delivered []byte
@@ -233,9 +241,9 @@ func runIOCase(c ioCase) (obs string, mon []string) {
 				dst = plain
 			}
 			if c.op == "copydata" {
-				count, err = safeio.CopyDataWithContext(ctx, src, dst)
+				count, err = safeio.CopyDataWithContext(ctx, srcR, dst)
 			} else {
-				count, err = safeio.CopyNWithContext(ctx, src, dst, c.n)
+				count, err = safeio.CopyNWithContext(ctx, srcR, dst, c.n)
 			}
 			if c.rf {
 				delivered = rf.out
@@ -389,7 +397,25 @@ func ioHelpersRun(o *hx.Opts, rep *hx.Report, drv *hx.Driver) {
 	var lines, obs []string
 	for _, c := range cases {
 		l := c.line()
-		ob, mon := runIOCase(c)
+		ob, mon := runIOCase(c, "plain")
+		if c.op == "copydata" && !c.rf {
+			// the same copy from a source that implements io.WriterTo over the same stream
+			ob2, mon2 := runIOCase(c, "writerTo")
+			rep.Hist("source-flavour:io.WriterTo")
+			for _, m := range mon2 {
+				rep.Fail(hx.Failure{Kind: "impl-violates-property", Key: strings.SplitN(m, ":", 2)[0] + ":source-with-WriterTo", Case: l + " [source behind a *bufio.Reader]", Expected: "prefix / count / no-read-after-cancel", Observed: m + " | " + ob2})
+			}
+			sem := func(o string) string { // count, error kind, bytes delivered, reads after the context ended
+				f := strings.Fields(o)
+				if len(f) < 6 {
+					return o
+				}
+				return strings.Join([]string{f[0], f[1], f[2], f[4]}, " ")
+			}
+			if sem(ob2) != sem(ob) && len(mon2) == 0 {
+				rep.Fail(hx.Failure{Kind: "impl-violates-property", Key: "result-depends-on-the-source-type", Case: l + " [source behind a *bufio.Reader]", Expected: "as with the bare stream: " + ob, Observed: ob2})
+			}
+		}
 		nontrivial := len(c.script) > 0 || c.failAt >= 0 || c.cancelAt >= 0 || c.sinkLim >= 0
 		rep.Eval(l, nontrivial)
 		rep.Hist("op:" + c.op)
